@@ -8,7 +8,7 @@ import special
 TRUSTED_BASE = [
     'Coq 8.16.1 kernel and coqc (vm_compute used in finite-table lemmas and examples; no native_compute)',
     'no axioms: every theorem in Properties/*.v prints "Closed under the global context"',
-    'translator gfsgen (Go go/parser + regexp/syntax -> Coq terms): regexes, pad tables, option constants',
+    'translator gfsgen (Go go/parser + regexp/syntax -> Coq terms): regexes, pad tables, option constants, storage.go statement programs, shared-write table, fastwalk coordinator loop, seqinfo stage list',
     'byte-level reading of the regular expressions (captures start/end on ASCII bytes only)',
     'extraction: Require Extraction + ExtrOcamlBasic only (bool/option/unit/list/prod/sumbool/sumor mapped; nat/Z/positive/ascii/string kept as extracted inductives); OCaml 4.13.1; harness/ocaml/driver.ml',
     'Go driver harness/go (built with -tags verif from the working tree) and this orchestrator (comparison, oracles)',
